@@ -150,8 +150,46 @@ pub fn g_bytes(long_weight: u32) -> BoxedStrategy<(Vec<u8>, &'static str)> {
         3 => g_eod().prop_map(|v| (v, "eod-shaped")),
         long_weight => g_b256_boundary().prop_map(|v| (v, "b256-length-boundary")),
         2 => g_homogeneous(300).prop_map(|v| (v, "len41-300")),
+        3 => g_segments(true).prop_map(|v| (v, "eod-shaped")),
     ]
     .boxed()
+}
+
+/// Two to four homogeneous segments whose lengths sit at the group boundaries of the mode that would carry
+/// them (multiples of 3 and 4 and their neighbours, even / odd digit counts, Base256 fields of 249..251
+/// bytes), optionally followed by a one-character tail of another kind.  Together with G-exact (applied
+/// afterwards to a part of the cases) this is where a planner / encoder disagreement about one codeword
+/// changes the outcome.
+pub fn g_segments(allow_long: bool) -> impl Strategy<Value = Vec<u8>> {
+    (vec((any::<u16>(), any::<u16>(), any::<u64>()), 2..=4), any::<u16>(), any::<u8>()).prop_map(move |(segs, tail, tv)| {
+        let mut v = Vec::new();
+        let mut long_used = false;
+        for (c, l, seed) in segs {
+            let class = [0usize, 1, 2, 3, 5, 8, 5, 8, 1, 0][pick(c, 10)];
+            let len = match class {
+                0 => [1usize, 2, 3, 4, 5, 6, 7, 8, 9, 10, 11, 12][pick(l, 12)],
+                1 | 2 | 3 => [2usize, 3, 4, 5, 6, 7, 8, 9, 10, 12, 13, 15][pick(l, 12)],
+                5 => [3usize, 4, 5, 7, 8, 9, 11, 12, 13, 16, 20, 32][pick(l, 12)],
+                _ => {
+                    if allow_long && !long_used && l % 4 == 0 {
+                        long_used = true;
+                        [249usize, 250, 251, 250][pick(l.rotate_left(3), 4)]
+                    } else {
+                        [1usize, 2, 3, 4, 5, 6, 8, 10][pick(l, 8)]
+                    }
+                }
+            };
+            let r = expand(seed, len);
+            v.extend((0..len).map(|i| class_char(class, r[i])));
+        }
+        match pick(tail, 6) {
+            0 => v.push(class_char(2, tv)),
+            1 => v.push(class_char(10, tv)),
+            2 => v.push(class_char(0, tv)),
+            _ => {}
+        }
+        v
+    })
 }
 
 /// one character class only (digits, upper case, ..., high bytes), any length up to `max`: the inputs on
@@ -172,6 +210,7 @@ pub fn g_bytes_short() -> BoxedStrategy<(Vec<u8>, &'static str)> {
         2 => g_bytes_len(4, 16, 10, 120).prop_map(|v| (v, "len41-120")),
         4 => g_eod().prop_map(|v| (v, "eod-shaped")),
         2 => g_homogeneous(100).prop_map(|v| (v, "len41-120")),
+        3 => g_segments(false).prop_map(|v| (v, "eod-shaped")),
         1 => g_b256_boundary().prop_filter_map("short variants only", |v| if v.len() < 300 { Some((v, "b256-length-boundary")) } else { None }),
     ]
     .boxed()
